@@ -83,10 +83,11 @@ Kills == {c \in Classes : Step(st, Canon(c)).mode = "dead"}
 (***************************************************************************)
 TypeOK == st.mode \in Modes \ {"dead"} /\ hist \in Seq(Classes)
 
-\* the pushdown machine and the relational grammar accept the same strings (this one and its one-token extensions)
+\* the pushdown machine and the relational grammar accept the same strings: every string up to MaxLen tokens is
+\* either a live one (first conjunct) or a one-token extension of a shorter live one (second conjunct)
 GrammarAgree ==
   /\ Accepting(st) = InGrammar(hist)
-  /\ \A c \in Classes : Accepting(Step(st, Canon(c))) = InGrammar(Append(hist, c))
+  /\ Len(hist) < MaxLen => \A c \in Classes : Accepting(Step(st, Canon(c))) = InGrammar(Append(hist, c))
 
 \* stack depth = opened - closed containers (no structural token occurs inside a string in these behaviours)
 Balanced == Len(st.stack) = Count(hist, {"LBRACK", "LBRACE"}) - Count(hist, {"RBRACK", "RBRACE"})
@@ -115,5 +116,6 @@ EmitInv ==
   Len(hist) >= MinEmit =>
   PrintT(<<"CASE", ToJson([t |-> hist, acc |-> Accepting(st), mode |-> st.mode,
                             val |-> IF Accepting(st) THEN FinalValue(st) ELSE NoVal,
+                            rev |-> IF Accepting(st) THEN ReviverCalls(FinalValue(st)) ELSE <<>>,
                             kills |-> Kills, comp |-> Completion(st)])>>)
 =============================================================================
